@@ -50,7 +50,11 @@ func (n *addDefaults) YangDataChildrenNoSorting() []datanode.DataNode {
 }
 
 func (n *addDefaults) isAChoice(name string) bool {
-	for _, chs := range n.sch.Choices() {
+	return isUnderChoice(n.sch, name)
+}
+
+func isUnderChoice(sch Node, name string) bool {
+	for _, chs := range sch.Choices() {
 		if chs.Child(name) != nil {
 			return true
 		}
@@ -177,7 +181,9 @@ func (n *addDefaults) yangDataChildren(
 				continue
 			}
 		}
-		new_children = append(new_children, createDefault(def))
+		if dn := createDefault(def); dn != nil {
+			new_children = append(new_children, dn)
+		}
 	}
 
 	return new_children
@@ -195,9 +201,22 @@ func createDefault(sch Node) datanode.DataNode {
 		return datanode.CreateDataNode(v.Name(), nil, []string{val})
 	}
 
+	// Nothing is configured below a node that is itself a default, so of
+	// the nodes under a choice only those of the default case are defaults.
+	nothingConfigured := func(Node) bool { return false }
+
 	var children []datanode.DataNode
 	for _, ch := range sch.DefaultChildren() {
-		children = append(children, createDefault(ch))
+		if isUnderChoice(sch, ch.Name()) &&
+			!IsActiveDefault(sch, ch.Name(), nothingConfigured) {
+			continue
+		}
+		if dn := createDefault(ch); dn != nil {
+			children = append(children, dn)
+		}
+	}
+	if len(children) == 0 {
+		return nil
 	}
 
 	return datanode.CreateDataNode(sch.Name(), children, nil)
